@@ -1,1 +1,380 @@
-From Servitor Require Import Base.
+(* C07 - Keys do what the keymap says on every history and never crash the UI.
+   [update] is the model of ui.State.Update, [run_task] the locked tail of a background goroutine
+   (see Ui.v); items, containers and everything package pub provides are universally quantified
+   oracles.  [ui_inv] (UiFacts.v): pages hold genuine two-sided feeds, history only names existing
+   pages and has a valid cursor, a page exists whenever the mode is not "loading", and every page
+   has at most one loader per direction, exactly as its flags say.  [reachable]: any interleaving
+   of key presses, resizes and completions of ANY pending task, from the initial state.
+   Only property theorems here. *)
+
+From Servitor Require Import Base Unicode Ansi Style History Feed Ui.
+From Servitor.Facts Require Import UiFacts.
+Local Open Scope Z_scope.
+
+(* the invariant holds in EVERY state reachable by keys (all 256 byte values), resizes and background completions in any order *)
+Theorem reachable_inv :
+  forall (I C : Type) (preload : Z) (parents : I -> nat -> list I * option I)
+  (children : I -> option C) (harvest : C -> nat -> nat -> list I * option C * nat)
+  (select_link : I -> Z -> option text) (creators recipients : I -> option (list I))
+  (actor_of : I -> option I) (media pfp banner : I -> option text)
+  (open_link open_user : text -> opened I C) (feed_named : text -> option C)
+  (hook_fails : text -> option text) (msg_unknown_feed msg_bad_command : text -> text)
+  (w h : Z) (s : ui I C),
+  reachable I C preload parents children harvest select_link creators recipients actor_of
+  media pfp banner open_link open_user feed_named hook_fails msg_unknown_feed
+  msg_bad_command w h s -> ui_inv I C s.
+Proof. exact reachable_inv_fact. Qed.
+Print Assumptions reachable_inv.
+
+Theorem update_inv :
+  forall (I C : Type) (preload : Z) (parents : I -> nat -> list I * option I)
+  (children : I -> option C) (select_link : I -> Z -> option text)
+  (creators recipients : I -> option (list I)) (actor_of : I -> option I)
+  (media pfp banner : I -> option text) (open_link open_user : text -> opened I C)
+  (feed_named : text -> option C) (msg_unknown_feed msg_bad_command : text -> text)
+  (s : ui I C) (key : N),
+  ui_inv I C s ->
+  ui_inv I C
+  (update I C preload parents children select_link creators recipients actor_of media pfp
+  banner open_link open_user feed_named msg_unknown_feed msg_bad_command s key).
+Proof. exact update_inv_fact. Qed.
+Print Assumptions update_inv.
+
+Theorem run_task_inv :
+  forall (I C : Type) (preload : Z) (parents : I -> nat -> list I * option I)
+  (children : I -> option C) (harvest : C -> nat -> nat -> list I * option C * nat)
+  (hook_fails : text -> option text) (s : ui I C) (t : task I C)
+  (pre post : list (task I C)),
+  ui_inv I C s ->
+  u_tasks I C s = pre ++ t :: post ->
+  ui_inv I C
+  (run_task I C preload parents children harvest hook_fails (remove_task I C s pre post) t).
+Proof. exact run_task_inv_fact. Qed.
+Print Assumptions run_task_inv.
+
+Theorem resize_inv :
+  forall (I C : Type) (s : ui I C) (w h : Z), ui_inv I C s -> ui_inv I C (resize I C s w h).
+Proof. exact resize_inv_fact. Qed.
+Print Assumptions resize_inv.
+
+Theorem init_inv :
+  forall (I C : Type) (w h : Z), ui_inv I C (ui_init I C w h).
+Proof. exact init_inv_fact. Qed.
+Print Assumptions init_inv.
+
+Theorem settle_inv :
+  forall (I C : Type) (preload : Z) (parents : I -> nat -> list I * option I)
+  (children : I -> option C) (harvest : C -> nat -> nat -> list I * option C * nat)
+  (hook_fails : text -> option text) (fuel : nat) (s : ui I C),
+  ui_inv I C s -> ui_inv I C (settle I C preload parents children harvest hook_fails fuel s).
+Proof. exact settle_inv_fact. Qed.
+Print Assumptions settle_inv.
+
+(* (the invariant without the flag/frontier clauses is NOT inductive: formal counterexample) *)
+Theorem weak_inv_not_inductive :
+  forall (I C : Type) (preload : Z) (parents : I -> nat -> list I * option I)
+  (children : I -> option C) (harvest : C -> nat -> nat -> list I * option C * nat)
+  (hook_fails : text -> option text),
+  exists (s : ui I C) (t : task I C) (pre post : list (task I C)),
+  ui_inv_weak I C s /\
+  u_tasks I C s = pre ++ t :: post /\
+  ~
+  ui_inv_weak I C
+  (run_task I C preload parents children harvest hook_fails (remove_task I C s pre post) t).
+Proof. exact weak_inv_not_inductive_fact. Qed.
+Print Assumptions weak_inv_not_inductive.
+
+(* in every such state the frame is computed without a panic (no lookup outside the feed, no Current on an empty history) *)
+Theorem view_no_panic_colors :
+  forall (I C : Type) (preload : Z) (col : colors) (full_text preview_text : I -> Z -> text)
+  (s : ui I C),
+  ui_inv I C s ->
+  0 <= u_width I C s ->
+  StyleFacts.colors_ok col ->
+  exists t : text, view I C preload col full_text preview_text s = Ok t.
+Proof. exact view_no_panic_colors_fact. Qed.
+Print Assumptions view_no_panic_colors.
+
+(* every key is ignored while loading *)
+Theorem loading_ignores_keys :
+  forall (I C : Type) (preload : Z) (parents : I -> nat -> list I * option I)
+  (children : I -> option C) (select_link : I -> Z -> option text)
+  (creators recipients : I -> option (list I)) (actor_of : I -> option I)
+  (media pfp banner : I -> option text) (open_link open_user : text -> opened I C)
+  (feed_named : text -> option C) (msg_unknown_feed msg_bad_command : text -> text)
+  (s : ui I C) (key : N),
+  u_mode I C s = MLoading ->
+  update I C preload parents children select_link creators recipients actor_of media pfp
+  banner open_link open_user feed_named msg_unknown_feed msg_bad_command s key = s.
+Proof. exact loading_ignores_keys_fact. Qed.
+Print Assumptions loading_ignores_keys.
+
+(* Esc always cancels and changes nothing else *)
+Theorem esc_cancels :
+  forall (I C : Type) (preload : Z) (parents : I -> nat -> list I * option I)
+  (children : I -> option C) (select_link : I -> Z -> option text)
+  (creators recipients : I -> option (list I)) (actor_of : I -> option I)
+  (media pfp banner : I -> option text) (open_link open_user : text -> opened I C)
+  (feed_named : text -> option C) (msg_unknown_feed msg_bad_command : text -> text)
+  (s : ui I C),
+  u_mode I C s <> MLoading ->
+  let s' :=
+  update I C preload parents children select_link creators recipients actor_of media pfp
+  banner open_link open_user feed_named msg_unknown_feed msg_bad_command s 27 in
+  u_mode I C s' = MNormal /\
+  u_buffer I C s' = [] /\
+  u_pages I C s' = u_pages I C s /\
+  u_hist I C s' = u_hist I C s /\ u_tasks I C s' = u_tasks I C s.
+Proof. exact esc_cancels_fact. Qed.
+Print Assumptions esc_cancels.
+
+Theorem colon_enters_command :
+  forall (I C : Type) (preload : Z) (parents : I -> nat -> list I * option I)
+  (children : I -> option C) (select_link : I -> Z -> option text)
+  (creators recipients : I -> option (list I)) (actor_of : I -> option I)
+  (media pfp banner : I -> option text) (open_link open_user : text -> opened I C)
+  (feed_named : text -> option C) (msg_unknown_feed msg_bad_command : text -> text)
+  (s : ui I C),
+  u_mode I C s = MNormal \/
+  u_mode I C s = MSelection \/ u_mode I C s = MOpening \/ u_mode I C s = MProblem ->
+  let s' :=
+  update I C preload parents children select_link creators recipients actor_of media pfp
+  banner open_link open_user feed_named msg_unknown_feed msg_bad_command s 58 in
+  u_mode I C s' = MCommand /\
+  u_buffer I C s' = [] /\ u_pages I C s' = u_pages I C s /\ u_hist I C s' = u_hist I C s.
+Proof. exact colon_enters_command_fact. Qed.
+Print Assumptions colon_enters_command.
+
+(* in command mode bytes are appended *)
+Theorem command_types :
+  forall (I C : Type) (preload : Z) (parents : I -> nat -> list I * option I)
+  (children : I -> option C) (select_link : I -> Z -> option text)
+  (creators recipients : I -> option (list I)) (actor_of : I -> option I)
+  (media pfp banner : I -> option text) (open_link open_user : text -> opened I C)
+  (feed_named : text -> option C) (msg_unknown_feed msg_bad_command : text -> text)
+  (s : ui I C) (key : N),
+  u_mode I C s = MCommand ->
+  key <> 27%N ->
+  key <> 127%N ->
+  key <> 13%N ->
+  let s' :=
+  update I C preload parents children select_link creators recipients actor_of media pfp
+  banner open_link open_user feed_named msg_unknown_feed msg_bad_command s key in
+  u_mode I C s' = MCommand /\
+  u_buffer I C s' = u_buffer I C s ++ [key] /\
+  u_pages I C s' = u_pages I C s /\
+  u_hist I C s' = u_hist I C s /\ u_tasks I C s' = u_tasks I C s.
+Proof. exact command_types_fact. Qed.
+Print Assumptions command_types.
+
+(* a digit starts selecting a link *)
+Theorem digit_selects :
+  forall (I C : Type) (preload : Z) (parents : I -> nat -> list I * option I)
+  (children : I -> option C) (select_link : I -> Z -> option text)
+  (creators recipients : I -> option (list I)) (actor_of : I -> option I)
+  (media pfp banner : I -> option text) (open_link open_user : text -> opened I C)
+  (feed_named : text -> option C) (msg_unknown_feed msg_bad_command : text -> text)
+  (s : ui I C) (d : N),
+  u_mode I C s = MNormal ->
+  (48 <= d <= 57)%N ->
+  let s' :=
+  update I C preload parents children select_link creators recipients actor_of media pfp
+  banner open_link open_user feed_named msg_unknown_feed msg_bad_command s d in
+  u_mode I C s' = MSelection /\
+  u_buffer I C s' = [d] /\ u_pages I C s' = u_pages I C s /\ u_hist I C s' = u_hist I C s.
+Proof. exact digit_selects_fact. Qed.
+Print Assumptions digit_selects.
+
+Theorem digit_appends :
+  forall (I C : Type) (preload : Z) (parents : I -> nat -> list I * option I)
+  (children : I -> option C) (select_link : I -> Z -> option text)
+  (creators recipients : I -> option (list I)) (actor_of : I -> option I)
+  (media pfp banner : I -> option text) (open_link open_user : text -> opened I C)
+  (feed_named : text -> option C) (msg_unknown_feed msg_bad_command : text -> text)
+  (s : ui I C) (d : N),
+  u_mode I C s = MSelection ->
+  (48 <= d <= 57)%N ->
+  let s' :=
+  update I C preload parents children select_link creators recipients actor_of media pfp
+  banner open_link open_user feed_named msg_unknown_feed msg_bad_command s d in
+  u_mode I C s' = MSelection /\
+  u_buffer I C s' = u_buffer I C s ++ [d] /\
+  u_pages I C s' = u_pages I C s /\ u_hist I C s' = u_hist I C s.
+Proof. exact digit_appends_fact. Qed.
+Print Assumptions digit_appends.
+
+(* h / l walk the history (back / forward of the History model: saturating) *)
+Theorem history_keys :
+  forall (I C : Type) (preload : Z) (parents : I -> nat -> list I * option I)
+  (children : I -> option C) (select_link : I -> Z -> option text)
+  (creators recipients : I -> option (list I)) (actor_of : I -> option I)
+  (media pfp banner : I -> option text) (open_link open_user : text -> opened I C)
+  (feed_named : text -> option C) (msg_unknown_feed msg_bad_command : text -> text)
+  (s : ui I C),
+  u_mode I C s = MNormal ->
+  u_hist I C
+  (update I C preload parents children select_link creators recipients actor_of media pfp
+  banner open_link open_user feed_named msg_unknown_feed msg_bad_command s 104) =
+  h_back (u_hist I C s) /\
+  u_hist I C
+  (update I C preload parents children select_link creators recipients actor_of media pfp
+  banner open_link open_user feed_named msg_unknown_feed msg_bad_command s 108) =
+  h_forward (u_hist I C s) /\
+  u_pages I C
+  (update I C preload parents children select_link creators recipients actor_of media pfp
+  banner open_link open_user feed_named msg_unknown_feed msg_bad_command s 104) =
+  u_pages I C s /\
+  u_pages I C
+  (update I C preload parents children select_link creators recipients actor_of media pfp
+  banner open_link open_user feed_named msg_unknown_feed msg_bad_command s 108) =
+  u_pages I C s /\
+  u_mode I C
+  (update I C preload parents children select_link creators recipients actor_of media pfp
+  banner open_link open_user feed_named msg_unknown_feed msg_bad_command s 104) = MNormal /\
+  u_mode I C
+  (update I C preload parents children select_link creators recipients actor_of media pfp
+  banner open_link open_user feed_named msg_unknown_feed msg_bad_command s 108) = MNormal.
+Proof. exact history_keys_fact. Qed.
+Print Assumptions history_keys.
+
+(* j moves one item down iff one exists there *)
+Theorem move_down_key :
+  forall (I C : Type) (preload : Z) (parents : I -> nat -> list I * option I)
+  (children : I -> option C) (select_link : I -> Z -> option text)
+  (creators recipients : I -> option (list I)) (actor_of : I -> option I)
+  (media pfp banner : I -> option text) (open_link open_user : text -> opened I C)
+  (feed_named : text -> option C) (msg_unknown_feed msg_bad_command : text -> text)
+  (s : ui I C) (k : nat) (p : page I C) (it : I),
+  u_mode I C s = MNormal ->
+  cur_pid I C s = Some k ->
+  page_find I C (u_pages I C s) k = Some p ->
+  f_current (pg_feed I C p) = Some it ->
+  u_hist I C
+  (update I C preload parents children select_link creators recipients actor_of media pfp
+  banner open_link open_user feed_named msg_unknown_feed msg_bad_command s 106) =
+  u_hist I C s /\
+  (exists p' : page I C,
+  page_find I C
+  (u_pages I C
+  (update I C preload parents children select_link creators recipients actor_of media
+  pfp banner open_link open_user feed_named msg_unknown_feed msg_bad_command s 106))
+  k = Some p' /\
+  pg_feed I C p' = f_move_down (pg_feed I C p) /\
+  f_index (pg_feed I C p') =
+  (if f_contains (pg_feed I C p) 1
+  then f_index (pg_feed I C p) + 1
+  else f_index (pg_feed I C p)) /\ f_map (pg_feed I C p') = f_map (pg_feed I C p)).
+Proof. exact move_down_key_fact. Qed.
+Print Assumptions move_down_key.
+
+(* k likewise upwards *)
+Theorem move_up_key :
+  forall (I C : Type) (preload : Z) (parents : I -> nat -> list I * option I)
+  (children : I -> option C) (select_link : I -> Z -> option text)
+  (creators recipients : I -> option (list I)) (actor_of : I -> option I)
+  (media pfp banner : I -> option text) (open_link open_user : text -> opened I C)
+  (feed_named : text -> option C) (msg_unknown_feed msg_bad_command : text -> text)
+  (s : ui I C) (k : nat) (p : page I C) (it : I),
+  u_mode I C s = MNormal ->
+  cur_pid I C s = Some k ->
+  page_find I C (u_pages I C s) k = Some p ->
+  f_current (pg_feed I C p) = Some it ->
+  u_hist I C
+  (update I C preload parents children select_link creators recipients actor_of media pfp
+  banner open_link open_user feed_named msg_unknown_feed msg_bad_command s 107) =
+  u_hist I C s /\
+  (exists p' : page I C,
+  page_find I C
+  (u_pages I C
+  (update I C preload parents children select_link creators recipients actor_of media
+  pfp banner open_link open_user feed_named msg_unknown_feed msg_bad_command s 107))
+  k = Some p' /\
+  pg_feed I C p' = f_move_up (pg_feed I C p) /\
+  f_index (pg_feed I C p') =
+  (if f_contains (pg_feed I C p) (-1)
+  then f_index (pg_feed I C p) - 1
+  else f_index (pg_feed I C p)) /\ f_map (pg_feed I C p') = f_map (pg_feed I C p)).
+Proof. exact move_up_key_fact. Qed.
+Print Assumptions move_up_key.
+
+(* g returns to the opened item *)
+Theorem move_center_key :
+  forall (I C : Type) (preload : Z) (parents : I -> nat -> list I * option I)
+  (children : I -> option C) (select_link : I -> Z -> option text)
+  (creators recipients : I -> option (list I)) (actor_of : I -> option I)
+  (media pfp banner : I -> option text) (open_link open_user : text -> opened I C)
+  (feed_named : text -> option C) (msg_unknown_feed msg_bad_command : text -> text)
+  (s : ui I C) (k : nat) (p : page I C) (it : I),
+  u_mode I C s = MNormal ->
+  cur_pid I C s = Some k ->
+  page_find I C (u_pages I C s) k = Some p ->
+  f_current (pg_feed I C p) = Some it ->
+  u_hist I C
+  (update I C preload parents children select_link creators recipients actor_of media pfp
+  banner open_link open_user feed_named msg_unknown_feed msg_bad_command s 103) =
+  u_hist I C s /\
+  u_tasks I C
+  (update I C preload parents children select_link creators recipients actor_of media pfp
+  banner open_link open_user feed_named msg_unknown_feed msg_bad_command s 103) =
+  u_tasks I C s /\
+  (exists p' : page I C,
+  page_find I C
+  (u_pages I C
+  (update I C preload parents children select_link creators recipients actor_of media
+  pfp banner open_link open_user feed_named msg_unknown_feed msg_bad_command s 103))
+  k = Some p' /\
+  pg_feed I C p' = f_move_to_center (pg_feed I C p) /\
+  f_index (pg_feed I C p') =
+  (if f_contains (pg_feed I C p) (- f_index (pg_feed I C p))
+  then 0
+  else f_index (pg_feed I C p)) /\ f_map (pg_feed I C p') = f_map (pg_feed I C p)).
+Proof. exact move_center_key_fact. Qed.
+Print Assumptions move_center_key.
+
+(* space opens the highlighted item as a new page, dropping the forward history *)
+Theorem space_opens :
+  forall (I C : Type) (preload : Z) (parents : I -> nat -> list I * option I)
+  (children : I -> option C) (select_link : I -> Z -> option text)
+  (creators recipients : I -> option (list I)) (actor_of : I -> option I)
+  (media pfp banner : I -> option text) (open_link open_user : text -> opened I C)
+  (feed_named : text -> option C) (msg_unknown_feed msg_bad_command : text -> text)
+  (s : ui I C) (k : nat) (p : page I C) (it : I),
+  u_mode I C s = MNormal ->
+  cur_pid I C s = Some k ->
+  page_find I C (u_pages I C s) k = Some p ->
+  f_current (pg_feed I C p) = Some it ->
+  let s' :=
+  update I C preload parents children select_link creators recipients actor_of media pfp
+  banner open_link open_user feed_named msg_unknown_feed msg_bad_command s 32 in
+  u_hist I C s' = h_add (u_hist I C s) (length (u_pages I C s)) /\
+  cur_pid I C s' = Some (length (u_pages I C s)) /\
+  (exists p' : page I C,
+  page_find I C (u_pages I C s') (length (u_pages I C s)) = Some p' /\
+  pg_feed I C p' = f_create it /\ f_current (pg_feed I C p') = Some it) /\
+  (forall k0 : nat,
+  k0 <> length (u_pages I C s) ->
+  page_find I C (u_pages I C s') k0 = page_find I C (u_pages I C s) k0).
+Proof. exact space_opens_fact. Qed.
+Print Assumptions space_opens.
+
+Theorem space_keeps_pages :
+  forall (I C : Type) (preload : Z) (parents : I -> nat -> list I * option I)
+  (children : I -> option C) (select_link : I -> Z -> option text)
+  (creators recipients : I -> option (list I)) (actor_of : I -> option I)
+  (media pfp banner : I -> option text) (open_link open_user : text -> opened I C)
+  (feed_named : text -> option C) (msg_unknown_feed msg_bad_command : text -> text)
+  (s : ui I C) (k : nat) (p : page I C) (it : I),
+  ui_inv I C s ->
+  u_mode I C s = MNormal ->
+  cur_pid I C s = Some k ->
+  page_find I C (u_pages I C s) k = Some p ->
+  f_current (pg_feed I C p) = Some it ->
+  forall (k0 : nat) (p0 : page I C),
+  page_find I C (u_pages I C s) k0 = Some p0 ->
+  page_find I C
+  (u_pages I C
+  (update I C preload parents children select_link creators recipients actor_of media pfp
+  banner open_link open_user feed_named msg_unknown_feed msg_bad_command s 32)) k0 =
+  Some p0.
+Proof. exact space_keeps_pages_fact. Qed.
+Print Assumptions space_keeps_pages.
